@@ -251,10 +251,27 @@ def forwards(rep, res, entry, callee_names, need, rule="R-FORWARD", exact=True):
         for i, a in enumerate(ev.d["args"]):
             if i < len(fn.params):
                 bound.setdefault(fn.params[i], a)
+        # the adaptation may be applied by the wrapper itself (K=None handed on, A / baseline already multiplied by the live K)
+        kv = bound.get("K")
+        av = bound.get("A")
+        folded = ("K" in need and (kv is None or (kv.known and kv.const is None)) and av is not None and need["K"] in av.flat().data)
+        system = {need.get(q) for q in ("A", "lb", "ub", "K", "baseline")} - {None}
         for p, origin in need.items():
             v = bound.get(p)
             if v is None and "**" in bound:
                 v = bound["**"]
+            if folded and p in ("A", "lb", "ub", "K", "baseline"):
+                if p == "K":
+                    bv = bound.get("baseline")
+                    ok = bv is None or (bv.known and bv.const is None) or need["K"] in bv.flat().data or "baseline" not in need
+                else:
+                    extra = {o for o in v.flat().data if o not in system and not o.startswith(("self._", "sol#", "par#", "xsample@", "pick@"))} \
+                        if v is not None else {"<absent>"}
+                    ok = v is not None and origin in v.flat().data and not extra
+                rep.check(rule, f"{origin} → {fn.name}({p}=) [adaptation applied by the wrapper]", ok, where=ev.loc,
+                          construct=f"{fn.name}(… {p}= …) in {ev.fn.name}", entry=entry, config=res.config,
+                          msg=f"`{p}` of {fn.name} is bound to a value computed from {sorted(v.flat().data) if v is not None else 'nothing'}")
+                continue
             ok = v is not None and origin in v.flat().data
             if ok and exact:
                 extra = {o for o in v.flat().data if o != origin and not o.startswith(("sol#", "par#", "xsample@", "pick@"))}
